@@ -1,11 +1,11 @@
-import Ledger.Proofs.WrapEvents
+import Ledger.Proofs.WrapNest
 import Ledger.Proofs.WrapBulk
 
 /-!
 The invariant of `Ledger/Proofs/WrapEvents.lean` is kept by the callers of the
-events wrapper modelled in `Ledger/Wrap/Stack.lean` (state tracker `handleState`,
-sequential `Bulker.Run`) and by every disciplined raw call; hence by every
-disciplined program (for C31).
+events wrapper modelled in `Ledger/Wrap/Stack.lean` (state tracker `handleState` —
+also nested inside an atomic bulk's transaction —, sequential `Bulker.Run`) and by
+every disciplined raw call; hence by every disciplined program (for C31).
 -/
 namespace Ledger.Wrap
 open List
@@ -14,29 +14,37 @@ open List
 def FnOk (fn : St → W → Ret × St) : Prop :=
   ∀ s c, Inv s → Good s.nT c → Inv (fn s c).2 ∧ Ext s (fn s c).2
 
-theorem stateUpdate_pres {s : St} (h : Inv s) (ctrl : W) :
-    Inv (stateUpdate s ctrl).2 ∧ Ext s (stateUpdate s ctrl).2 := by
+/-- `stateUpdate` only appends inert items. -/
+theorem stateUpdate_inert (I : St → Prop) (hin : ∀ s it, I s → Item.inert it = true → I (s.emit it))
+    {s : St} (h : I s) (ctrl : W) : I (stateUpdate s ctrl).2 := by
+  have step : ∀ s tag, I s → I (uSql s ctrl tag).2 := by
+    intro s tag hs
+    obtain ⟨it, hi, he⟩ := uSql_state s ctrl tag
+    rw [he]; exact hin s it hs hi
   unfold stateUpdate
   split
   · rename_i s1 heq
-    have h1 := uSql_pres h ctrl 1; rw [heq] at h1; exact h1
+    have h1 := step s 1 h; rw [heq] at h1; exact h1
   · rename_i s1 heq
-    have h1 := uSql_pres h ctrl 1; rw [heq] at h1
+    have h1 := step s 1 h; rw [heq] at h1
     split
     · split
       · rename_i s2 heq2
-        have h2 := uSql_pres h1.1 ctrl 2; rw [heq2] at h2
-        exact ⟨h2.1, h1.2.trans h2.2⟩
+        have h2 := step s1 2 h1; rw [heq2] at h2; exact h2
       · rename_i s2 heq2
-        have h2 := uSql_pres h1.1 ctrl 2; rw [heq2] at h2
+        have h2 := step s1 2 h1; rw [heq2] at h2
         split
         · rename_i s3 heq3
-          have h3 := uSql_pres h2.1 ctrl 3; rw [heq3] at h3
-          exact ⟨h3.1, (h1.2.trans h2.2).trans h3.2⟩
+          have h3 := step s2 3 h2; rw [heq3] at h3; exact h3
         · rename_i s3 heq3
-          have h3 := uSql_pres h2.1 ctrl 3; rw [heq3] at h3
-          exact ⟨h3.1, (h1.2.trans h2.2).trans h3.2⟩
+          have h3 := step s2 3 h2; rw [heq3] at h3; exact h3
     · exact h1
+
+theorem stateUpdate_pres {s : St} (h : Inv s) (ctrl : W) :
+    Inv (stateUpdate s ctrl).2 ∧ Ext s (stateUpdate s ctrl).2 := by
+  have := stateUpdate_inert (fun s' => Inv s' ∧ Ext s s')
+    (fun s' it hs hi => ⟨hs.1.emit_inert it hi, hs.2.trans (Ext.emit _ _)⟩) (s := s) ⟨h, Ext.refl _⟩ ctrl
+  exact this
 
 theorem lockedBody_pres {s : St} {ctrl : W} {fn : St → W → Ret × St} (h : Inv s)
     (hc : Good s.nT ctrl) (hpre : ctrl.u = .none ∨ s.lockTx true = true) (hfn : FnOk fn) :
@@ -68,71 +76,214 @@ theorem lockedBody_pres {s : St} {ctrl : W} {fn : St → W → Ret × St} (h : I
     have hr := wRelease_pres hbody.1 locked
     exact ⟨hr.1, (he1.trans hbody.2).trans hr.2⟩
 
-theorem deferRollback_pres {ctrl : W} {p : Ret × St} (h : Inv p.2) (hc : Good p.2.nT ctrl) :
-    Inv (deferRollback ctrl p).2 ∧ Ext p.2 (deferRollback ctrl p).2 :=
-  wRollback_pres h hc
+/-- `withLock` + state update + the write, inside the savepoint. -/
+theorem lockedBody_nest {cl : Prop} {s : St} {t1 t2 : Nat} {c1 : W} (h : Nest cl s t1 t2)
+    (hc1h : c1.hasTx = true) (hc1s : c1.sink = some (.tx t1)) (k : Kind) (w : Nat) :
+    Nest cl (lockedBody s (.node (.tx t2) true (.tx t2 (.tx t1 .none)) c1)
+      (fun s c => wWrite s c k false w)).2 t1 t2 ∧
+    Ext s (lockedBody s (.node (.tx t2) true (.tx t2 (.tx t1 .none)) c1)
+      (fun s c => wWrite s c k false w)).2 := by
+  generalize hc2 : (W.node (.tx t2) true (.tx t2 (.tx t1 .none)) c1) = c2
+  have hu2 : c2.u = .tx t2 (.tx t1 .none) := by subst hc2; rfl
+  have hh2 : c2.hasTx = true := by subst hc2; rfl
+  have hs2 : c2.sink = some (.tx t1) := by subst hc2; simp [W.sink, hc1h, hc1s]
+  have hl : c2.u.live s.opn = true := by rw [hu2]; simp [UH.live, h.o1, h.o2]
+  unfold lockedBody
+  cases hf : s.faults.lock with
+  | true =>
+    rw [wLock_fail hl hf]
+    exact ⟨h.emit_inert _ rfl, Ext.emit _ _⟩
+  | false =>
+    rw [wLock_ok hl hf]
+    simp only []
+    generalize hs1 : ({ s with nK := s.nK + 1 } : St).emit (.lock c2.u.id .ok) = s1
+    have hn1 : Nest cl s1 t1 t2 ∧ Ext s s1 := by
+      subst hs1; exact ⟨h.bump.emit_inert _ rfl, ⟨Nat.le_refl _, rfl, rfl, id⟩⟩
+    generalize hc3 : (W.node (.lk s.nK) (s.lockTx c2.hasTx) c2.u c2) = c3
+    have hu3 : c3.u = .tx t2 (.tx t1 .none) := by subst hc3; exact hu2
+    have hs3 : c3.sink = some (.tx t1) := by
+      subst hc3
+      show (if !(s.lockTx c2.hasTx) then none else if c2.hasTx then c2.sink else some (WId.lk s.nK)) = _
+      rw [hh2, h.lk, hs2]; rfl
+    have hsu := stateUpdate_inert (fun s' => Nest cl s' t1 t2 ∧ Ext s s')
+      (fun s' it hs hi => ⟨hs.1.emit_inert it hi, hs.2.trans (Ext.emit _ _)⟩) (s := s1) hn1 c2
+    have hbody : Nest cl (match stateUpdate s1 c2 with
+        | (Ret.ok, s) => wWrite s c3 k false w
+        | (e, s) => (e, s)).2 t1 t2 ∧ Ext s (match stateUpdate s1 c2 with
+        | (Ret.ok, s) => wWrite s c3 k false w
+        | (e, s) => (e, s)).2 := by
+      split
+      · rename_i s2 heq2
+        rw [heq2] at hsu
+        have := nest_write hsu.1 hu3 hs3 k w
+        exact ⟨this.1, hsu.2.trans this.2⟩
+      · rename_i e s2 _ heq2
+        rw [heq2] at hsu
+        exact hsu
+    exact ⟨(hbody.1).emit_inert _ rfl, hbody.2.trans (Ext.emit _ _)⟩
 
-theorem handleState_pres {s : St} {dry : Bool} {fn : St → W → Ret × St} (h : Inv s)
-    (hpre : s.inUse = true ∨ s.lockTx true = true) (hfn : FnOk fn) :
-    Inv (handleState s dry fn).2 ∧ Ext s (handleState s dry fn).2 := by
+theorem wWrite_fnOk (k : Kind) (dry : Bool) (w : Nat) : FnOk (fun s c => wWrite s c k dry w) :=
+  fun _ _ h hc => wWrite_pres h hc k dry w
+
+/-- `handleState` on a facade over a wrapper outside any transaction (the root). -/
+theorem handleState_pres {s : St} {c : W} {inUse dry : Bool} {fn : St → W → Ret × St} (h : Inv s)
+    (hc : Good s.nT c) (hu : c.u = .none)
+    (hpre : inUse = true ∨ s.lockTx true = true) (hfn : FnOk fn) :
+    Inv (handleState s c inUse dry fn).2.1 ∧ Ext s (handleState s c inUse dry fn).2.1 ∧
+    (inUse = true → (handleState s c inUse dry fn).2.2 = true) := by
   unfold handleState
   split
-  · exact hfn s .root h (good_root _)
+  · exact ⟨(hfn s c h hc).1, (hfn s c h hc).2, fun _ => rfl⟩
   · rename_i hiu
+    refine (fun (x : _ ∧ _) => ⟨x.1, x.2, fun hi => absurd hi hiu⟩) ?_
     have hlt : s.lockTx true = true := by
       rcases hpre with hp | hp
       · exact absurd hp hiu
       · exact hp
-    have hb := wBegin_pres h (good_root s.nT) rfl
+    have hb := wBegin_pres h hc hu
     split
     · rename_i e s1 heq
       rw [heq] at hb; exact ⟨hb.1, hb.2.1⟩
     · rename_i ctrl s1 heq
       rw [heq] at hb
       obtain ⟨hi1, he1, hg⟩ := hb
-      obtain ⟨hgc, hlc, hune⟩ := hg ctrl rfl
+      obtain ⟨_, _, _, hgc, hlc, hune⟩ := hg ctrl rfl
       have hlb := lockedBody_pres (fn := fn) hi1 hgc (Or.inr (by rw [he1.lockTx]; exact hlt)) hfn
       split
       · rename_i s2 heq2
         rw [heq2] at hlb
         have hgc2 : Good s2.nT ctrl := hgc.mono hlb.2.nT
         split
-        · have hcm := wCommit_pres hlb.1 hgc2 (Or.inr hlc)
+        · have hcm := wCommit_pres hlb.1 hgc2 (Or.inr hlc) rfl
           split
           · rename_i s3 heq3
             rw [heq3] at hcm
-            have hi3 : Inv { s3 with inUse := true } := Inv.of_eq hcm.1 rfl rfl rfl rfl rfl
-            have hd := deferRollback_pres (ctrl := ctrl) (p := (Ret.ok, { s3 with inUse := true })) hi3
-              (hgc2.mono hcm.2.nT)
-            refine ⟨hd.1, ((he1.trans hlb.2).trans hcm.2).trans (Ext.trans ?_ hd.2)⟩
-            exact ⟨Nat.le_refl _, rfl, rfl, fun _ => rfl⟩
+            exact ⟨hcm.1, (he1.trans hlb.2).trans hcm.2⟩
           · rename_i e s3 _ heq3
             rw [heq3] at hcm
-            have hd := deferRollback_pres (ctrl := ctrl) (p := (e, s3)) hcm.1 (hgc2.mono hcm.2.nT)
-            exact ⟨hd.1, ((he1.trans hlb.2).trans hcm.2).trans hd.2⟩
+            exact ⟨hcm.1, (he1.trans hlb.2).trans hcm.2⟩
         · have hrb := wRollback_pres hlb.1 hgc2
           split
           · rename_i s3 heq3
             rw [heq3] at hrb
-            have hd := deferRollback_pres (ctrl := ctrl) (p := (Ret.ok, s3)) hrb.1 (hgc2.mono hrb.2.nT)
-            exact ⟨hd.1, ((he1.trans hlb.2).trans hrb.2).trans hd.2⟩
+            exact ⟨hrb.1, (he1.trans hlb.2).trans hrb.2⟩
           · rename_i e s3 _ heq3
             rw [heq3] at hrb
-            have hd := deferRollback_pres (ctrl := ctrl) (p := (e, s3)) hrb.1 (hgc2.mono hrb.2.nT)
-            exact ⟨hd.1, ((he1.trans hlb.2).trans hrb.2).trans hd.2⟩
+            exact ⟨hrb.1, (he1.trans hlb.2).trans hrb.2⟩
       · rename_i e s2 _ heq2
         rw [heq2] at hlb
-        have hd := deferRollback_pres (ctrl := ctrl) (p := (e, s2)) hlb.1 (hgc.mono hlb.2.nT)
+        have hd := wRollback_pres hlb.1 (hgc.mono hlb.2.nT)
         exact ⟨hd.1, (he1.trans hlb.2).trans hd.2⟩
-
-theorem wWrite_fnOk (k : Kind) (dry : Bool) (w : Nat) : FnOk (fun s c => wWrite s c k dry w) :=
-  fun _ _ h hc => wWrite_pres h hc k dry w
 
 theorem facadeWrite_pres {s : St} (h : Inv s) (hpre : s.inUse = true ∨ s.lockTx true = true)
     (k : Kind) (dry : Bool) (w : Nat) :
-    Inv (facadeWrite s k dry w).2 ∧ Ext s (facadeWrite s k dry w).2 :=
-  handleState_pres h hpre (wWrite_fnOk k dry w)
+    Inv (facadeWrite s k dry w).2 ∧ Ext s (facadeWrite s k dry w).2 := by
+  have := handleState_pres (c := .root) (inUse := s.inUse) (dry := dry) h (good_root _) rfl hpre
+    (wWrite_fnOk k dry w)
+  unfold facadeWrite
+  simp only []
+  refine ⟨InvE.of_eq this.1 rfl rfl rfl rfl rfl, ?_⟩
+  exact ⟨this.2.1.nT, this.2.1.lockTx, this.2.1.handles, fun hi => this.2.2 hi⟩
 
+/-- What `wWrite` leaves untouched. -/
+theorem wWrite_frame (s : St) (c : W) (k : Kind) (dry : Bool) (w : Nat) :
+    (wWrite s c k dry w).2.opn = s.opn ∧ (wWrite s c k dry w).2.nT = s.nT ∧
+    ∀ i, c.sink ≠ some i → (wWrite s c k dry w).2.queue i = s.queue i := by
+  cases hl : c.u.live s.opn with
+  | false => rw [wWrite_done k dry w hl]; exact ⟨rfl, rfl, fun _ _ => rfl⟩
+  | true =>
+    cases hs : s.script w with
+    | false => rw [wWrite_fail k dry w hl hs]; exact ⟨rfl, rfl, fun _ _ => rfl⟩
+    | true =>
+      cases dry with
+      | true => rw [wWrite_dry k w hl hs]; exact ⟨rfl, rfl, fun _ _ => rfl⟩
+      | false =>
+        rw [wWrite_ok k w hl hs]
+        unfold handleEvent
+        split
+        · exact ⟨rfl, rfl, fun _ _ => rfl⟩
+        · rename_i j hj
+          refine ⟨rfl, rfl, fun i hi => ?_⟩
+          show updQ _ j _ i = _
+          rw [updQ_other _ _ _ _ (by intro he; subst he; exact hi hj)]
+          rfl
+
+/-- Properties of the wrapper returned by the bulk's `BeginTX` on the root. -/
+structure Owner (c1 : W) (t1 : Nat) : Prop where
+  u : c1.u = .tx t1 .none
+  h : c1.hasTx = true
+  s : c1.sink = some (.tx t1)
+  id : c1.id = .tx t1
+  lc : c1.lockCreated = false
+
+theorem Owner.good {c1 : W} {t1 n : Nat} (ho : Owner c1 t1) (h1 : 1 ≤ t1) (hn : t1 ≤ n) : Good n c1 :=
+  Or.inr ⟨t1, ho.u, h1, hn, ho.h, ho.s, Or.inl ho.id⟩
+
+/-- A write directly on the bulk's transaction wrapper (the bulk's facade is in use). -/
+theorem binv_write {cl : Prop} {s : St} {t1 : Nat} {c1 : W} (h : BInv cl s t1) (ho : Owner c1 t1)
+    (k : Kind) (dry : Bool) (w : Nat) :
+    BInv cl (wWrite s c1 k dry w).2 t1 ∧ Ext s (wWrite s c1 k dry w).2 := by
+  have hg := ho.good h.lo h.hi
+  obtain ⟨hopn, hnT, hq⟩ := wWrite_frame s c1 k dry w
+  refine ⟨⟨(wWrite_pres h.e hg k dry w).1, fun hc => (wWrite_pres (h.c hc) hg k dry w).1, ?_, h.lo, ?_, ?_⟩,
+    (wWrite_pres h.e hg k dry w).2⟩
+  · rw [hopn]; exact h.o1
+  · rw [hnT]; exact h.hi
+  · intro t ht
+    rw [hopn, hq (.tx t) (by rw [ho.s]; intro he; cases he; omega)]
+    exact h.above t ht
+
+/-- **The first-write path nested in the bulk's transaction**, and more generally a
+    write method of the facade returned by `controllerFacade.BeginTX`. -/
+theorem handleState_nested {cl : Prop} {s : St} {t1 : Nat} {c1 : W} {iu : Bool} (h : BInv cl s t1)
+    (ho : Owner c1 t1) (hlk : iu = true ∨ s.lockTx true = true) (k : Kind) (w : Nat) :
+    BInv (cl ∧ (handleState s c1 iu false (fun s c => wWrite s c k false w)).1 = .ok)
+      (handleState s c1 iu false (fun s c => wWrite s c k false w)).2.1 t1 ∧
+    Ext s (handleState s c1 iu false (fun s c => wWrite s c k false w)).2.1 ∧
+    (iu = true → (handleState s c1 iu false (fun s c => wWrite s c k false w)).2.2 = true) := by
+  unfold handleState
+  split
+  · have := binv_write h ho k false w
+    exact ⟨this.1.weaken (fun hc => hc.1), this.2, fun _ => rfl⟩
+  · rename_i hiu
+    refine (fun (x : _ ∧ _) => ⟨x.1, x.2, fun hi => absurd hi hiu⟩) ?_
+    have hlt : s.lockTx true = true := by
+      rcases hlk with hp | hp
+      · exact absurd hp hiu
+      · exact hp
+    rcases nest_begin (c1 := c1) h ho.u hlt with ⟨e, he, hb, hx⟩ | ⟨hok, hn, hx⟩
+    · rcases hw : wBegin s c1 with ⟨r, s1⟩
+      rw [hw] at he hb hx
+      simp only [] at he
+      subst he
+      exact ⟨hb.weaken (fun hc => hc.1), hx⟩
+    · rcases hw : wBegin s c1 with ⟨r, s1⟩
+      rw [hw] at hok hn hx
+      simp only [] at hok hn hx
+      subst hok
+      simp only []
+      have hlb := lockedBody_nest hn ho.h ho.s k w
+      generalize hc2 : (W.node (.tx (s.nT + 1)) true (.tx (s.nT + 1) (.tx t1 .none)) c1) = c2 at hlb ⊢
+      have hu2 : c2.u = .tx (s.nT + 1) (.tx t1 .none) := by subst hc2; rfl
+      have hid2 : c2.id = .tx (s.nT + 1) := by subst hc2; rfl
+      split
+      · rename_i s2 heq2
+        rw [heq2] at hlb
+        simp only [Bool.not_false, if_true]
+        have hcm := nest_commit hlb.1 hu2 hid2
+        split
+        · rename_i s3 heq3
+          rw [heq3] at hcm
+          exact ⟨hcm.1.weaken (fun hc => ⟨hc.1, rfl⟩), (hx.trans hlb.2).trans hcm.2⟩
+        · rename_i e s3 hne heq3
+          rw [heq3] at hcm
+          exact ⟨hcm.1.weaken (fun hc => ⟨hc.1, (hne hc.2).elim⟩),
+            (hx.trans hlb.2).trans hcm.2⟩
+      · rename_i e s2 hne heq2
+        rw [heq2] at hlb
+        have hrb := nest_rollback hlb.1 hu2 hid2
+        exact ⟨hrb.1.weaken (fun hc => (hne hc.2).elim),
+          (hx.trans hlb.2).trans hrb.2⟩
 
 theorem runSeq_inv {El S R E : Type} (tag : Nat → Nat) (apply : El → S → Except E R × S)
     (P : S → Prop) (hP : ∀ e p, P p → P (apply e p).2) (cof : Bool) (es : List El) (i : Nat)
@@ -147,61 +298,93 @@ theorem runSeq_inv {El S R E : Type} (tag : Nat → Nat) (apply : El → S → E
       rw [Bulk.outcomeOf_state]
       exact hP e s h
 
-theorem applyOn_none_state (e : BEl) (s : St) :
-    (applyOn none e s).2 = (facadeWrite s e.kind false e.w).2 := by
-  unfold applyOn
+/-- An invariant coupling the controller state with `hasError`. -/
+theorem runSeq_inv2 {El S R E : Type} (tag : Nat → Nat) (apply : El → S → Except E R × S)
+    (P : S → Bool → Prop)
+    (hP : ∀ e s he, P s he →
+      P (Bulk.outcomeOf apply e s).2 (he || (Bulk.outcomeOf apply e s).1.isErr))
+    (cof : Bool) (es : List El) (i : Nat) (he : Bool) (s : S) (h : P s he) :
+    P (Bulk.runSeq tag apply cof es i he s).2.2 (Bulk.runSeq tag apply cof es i he s).2.1 := by
+  induction es generalizing i he s with
+  | nil => exact h
+  | cons e es ih =>
+    rw [Bulk.runSeq_cons]
+    split
+    · exact ih _ _ _ h
+    · exact ih _ _ _ (hP e s he h)
+
+theorem bulkApply_none (e : BEl) (s : St) :
+    (bulkApply e (s, none)).2 = ((facadeWrite s e.kind false e.w).2, none) := rfl
+
+theorem outcome_bulkApply_some (e : BEl) (s : St) (c : W) (iu : Bool) :
+    (Bulk.outcomeOf bulkApply e (s, some (c, iu))).2 =
+      ((handleState s c iu false (fun s c => wWrite s c e.kind false e.w)).2.1,
+       some (c, (handleState s c iu false (fun s c => wWrite s c e.kind false e.w)).2.2)) ∧
+    ((Bulk.outcomeOf bulkApply e (s, some (c, iu))).1.isErr = false →
+      (handleState s c iu false (fun s c => wWrite s c e.kind false e.w)).1 = .ok) := by
+  unfold Bulk.outcomeOf bulkApply
   simp only []
-  split <;> rfl
+  generalize handleState s c iu false (fun s c => wWrite s c e.kind false e.w) = r
+  obtain ⟨r1, r2, r3⟩ := r
+  cases r1 <;> simp [Bulk.Outcome.isErr]
 
-theorem applyOn_some_state (c : W) (e : BEl) (s : St) :
-    (applyOn (some c) e s).2 = (wWrite s c e.kind false e.w).2 := by
-  unfold applyOn
-  simp only []
-  split <;> rfl
+/-- Invariant of a non-atomic bulk run started in `s0`. -/
+def PlainP (s0 : St) (p : BSt) : Prop := p.2 = none ∧ Inv p.1 ∧ Ext s0 p.1
 
-/-- Invariant of a bulk run started in `s0` with transaction wrapper `cw`. -/
-def BulkP (s0 : St) (cw : Option W) (p : BSt) : Prop :=
-  p.2 = cw ∧ Inv p.1 ∧ Ext s0 p.1
-
-theorem bulkApply_pres {s0 : St} {cw : Option W}
-    (hgood : ∀ c, cw = some c → Good s0.nT c)
-    (hfac : cw = none → s0.inUse = true ∨ s0.lockTx true = true)
-    (e : BEl) (p : BSt) (hp : BulkP s0 cw p) : BulkP s0 cw (bulkApply e p).2 := by
+theorem bulkApply_plain {s0 : St} (hfac : s0.inUse = true ∨ s0.lockTx true = true)
+    (e : BEl) (p : BSt) (hp : PlainP s0 p) : PlainP s0 (bulkApply e p).2 := by
+  obtain ⟨s, c⟩ := p
   obtain ⟨hc, hi, hx⟩ := hp
-  have hst : (bulkApply e p).2 = ((applyOn p.2 e p.1).2, p.2) := rfl
-  rw [hst]
-  refine ⟨hc, ?_⟩
-  show Inv (applyOn p.2 e p.1).2 ∧ Ext s0 (applyOn p.2 e p.1).2
-  rw [hc]
-  cases cw with
-  | none =>
-    rw [applyOn_none_state]
-    have hpre : p.1.inUse = true ∨ p.1.lockTx true = true := by
-      rcases hfac rfl with hh | hh
-      · exact Or.inl (hx.inUse hh)
-      · exact Or.inr (by rw [hx.lockTx]; exact hh)
-    have := facadeWrite_pres hi hpre e.kind false e.w
-    exact ⟨this.1, hx.trans this.2⟩
-  | some c =>
-    rw [applyOn_some_state]
-    have := wWrite_pres hi ((hgood c rfl).mono hx.nT) e.kind false e.w
-    exact ⟨this.1, hx.trans this.2⟩
+  simp only [] at hc hi hx
+  subst hc
+  rw [bulkApply_none]
+  have hpre : s.inUse = true ∨ s.lockTx true = true := by
+    rcases hfac with hh | hh
+    · exact Or.inl (hx.inUse hh)
+    · exact Or.inr (by rw [hx.lockTx]; exact hh)
+  have := facadeWrite_pres hi hpre e.kind false e.w
+  exact ⟨rfl, this.1, hx.trans this.2⟩
 
-theorem bulkCtrl_begin_eq (s : St) (cw : Option W) :
+/-- Invariant of an atomic bulk run: `hasError = false` means the bulk is still clean. -/
+def AtomP (s1 : St) (c1 : W) (t1 : Nat) (p : BSt) (he : Bool) : Prop :=
+  ∃ iu, p.2 = some (c1, iu) ∧ (iu = true ∨ p.1.lockTx true = true) ∧
+    BInv (he = false) p.1 t1 ∧ Ext s1 p.1
+
+theorem bulkApply_atom {s1 : St} {c1 : W} {t1 : Nat} (ho : Owner c1 t1) (e : BEl) (p : BSt)
+    (he : Bool) (hp : AtomP s1 c1 t1 p he) :
+    AtomP s1 c1 t1 (Bulk.outcomeOf bulkApply e p).2
+      (he || (Bulk.outcomeOf bulkApply e p).1.isErr) := by
+  obtain ⟨s, c⟩ := p
+  obtain ⟨iu, hc, hlk, hb, hx⟩ := hp
+  simp only [] at hc hlk hb hx
+  subst hc
+  obtain ⟨hst, hok⟩ := outcome_bulkApply_some e s c1 iu
+  have hn := handleState_nested hb ho hlk e.kind e.w
+  rw [hst]
+  refine ⟨_, rfl, ?_, ?_, hx.trans hn.2.1⟩
+  · rcases hlk with hl | hl
+    · exact Or.inl (hn.2.2 hl)
+    · exact Or.inr (by show (handleState s c1 iu false _).2.1.lockTx true = true; rw [hn.2.1.lockTx]; exact hl)
+  · refine hn.1.weaken ?_
+    intro hhe
+    simp only [Bool.or_eq_false_iff] at hhe
+    exact ⟨hhe.1, hok hhe.2⟩
+
+theorem bulkCtrl_begin_eq (s : St) (cw : Option (W × Bool)) :
     bulkCtrl.begin (s, cw) =
       match wBegin s .root with
-      | (.ok c, s) => (.ok (), (s, some c))
+      | (.ok c, s) => (.ok (), (s, some (c, s.inUse)))
       | (.error e, s) => (.error e, (s, none)) := rfl
 
-theorem bulkCtrl_commit_some (s : St) (c : W) :
-    (bulkCtrl.commit (s, some c)).2 = ((wCommit s c).2, some c) := by
+theorem bulkCtrl_commit_some (s : St) (c : W) (iu : Bool) :
+    (bulkCtrl.commit (s, some (c, iu))).2 = ((wCommit s c).2, some (c, iu)) := by
   show (match wCommit s c with
-        | (.ok, s) => ((Except.ok () : Except Ret Unit), (s, some c))
-        | (e, s) => (.error e, (s, some c))).2 = _
+        | (.ok, s) => ((Except.ok () : Except Ret Unit), (s, some (c, iu)))
+        | (e, s) => (.error e, (s, some (c, iu)))).2 = _
   split <;> simp_all
 
-theorem bulkCtrl_rollback_some (s : St) (c : W) :
-    bulkCtrl.rollback (s, some c) = ((wRollback s c).2, some c) := rfl
+theorem bulkCtrl_rollback_some (s : St) (c : W) (iu : Bool) :
+    bulkCtrl.rollback (s, some (c, iu)) = ((wRollback s c).2, some (c, iu)) := rfl
 
 theorem runBulk_state_nonatomic {S R E : Type} (ctl : Bulk.Ctrl S E) (cof : Bool)
     (run : S → List (Bulk.BRes R E) × Bool × S) (s : S) :
@@ -209,16 +392,18 @@ theorem runBulk_state_nonatomic {S R E : Type} (ctl : Bulk.Ctrl S E) (cof : Bool
   simp [Bulk.runBulk]
 
 /-- The controller state after an atomic `Bulker.Run`: `BeginTX` failed, or the
-    elements ran and then `Rollback` or `Commit` was called. -/
+    elements ran and then — `hasError` — `Rollback`, or — no error — `Commit`. -/
 theorem runBulk_state_atomic {S R E : Type} (ctl : Bulk.Ctrl S E) (cof : Bool)
     (run : S → List (Bulk.BRes R E) × Bool × S) (s : S) :
     (∃ e, (ctl.begin s).1 = .error e ∧
       (Bulk.runBulk ctl { atomic := true, cof := cof } run s).2.2 = (ctl.begin s).2) ∨
     ((ctl.begin s).1 = .ok () ∧
-      ((Bulk.runBulk ctl { atomic := true, cof := cof } run s).2.2 =
-          ctl.rollback (run (ctl.begin s).2).2.2 ∨
-       (Bulk.runBulk ctl { atomic := true, cof := cof } run s).2.2 =
-          (ctl.commit (run (ctl.begin s).2).2.2).2)) := by
+      (((run (ctl.begin s).2).2.1 = true ∧
+        (Bulk.runBulk ctl { atomic := true, cof := cof } run s).2.2 =
+          ctl.rollback (run (ctl.begin s).2).2.2) ∨
+       ((run (ctl.begin s).2).2.1 = false ∧
+        (Bulk.runBulk ctl { atomic := true, cof := cof } run s).2.2 =
+          (ctl.commit (run (ctl.begin s).2).2.2).2))) := by
   unfold Bulk.runBulk
   simp only [Bool.and_false, Bool.false_eq_true, if_false, if_true]
   rcases hb : ctl.begin s with ⟨r, s1⟩
@@ -231,23 +416,55 @@ theorem runBulk_state_atomic {S R E : Type} (ctl : Bulk.Ctrl S E) (cof : Bool)
     rcases hr : run s1 with ⟨rs, he, s2⟩
     simp only []
     cases he with
-    | true => exact Or.inl rfl
+    | true => exact Or.inl ⟨rfl, rfl⟩
     | false =>
       right
       simp only [Bool.false_eq_true, if_false]
       rcases hc : ctl.commit s2 with ⟨r2, s3⟩
       cases r2 with
-      | error e => rfl
-      | ok u => cases u; rfl
+      | error e => exact ⟨trivial, rfl⟩
+      | ok u => cases u; exact ⟨trivial, rfl⟩
+
+/-- Leaving the bulk by `Rollback`: whatever happened inside, the invariant is back. -/
+theorem binv_rollback {cl : Prop} {s : St} {t1 : Nat} {c1 : W} (h : BInv cl s t1) (ho : Owner c1 t1) :
+    Inv (wRollback s c1).2 ∧ Ext s (wRollback s c1).2 := by
+  have hg := ho.good h.lo h.hi
+  have hr := wRollback_pres h.e hg
+  have hl : c1.u.live s.opn = true := by rw [ho.u, live_tx]; exact h.o1
+  have h0 : c1.u.id ≠ 0 := by rw [ho.u]; simp [UH.id]; have := h.lo; omega
+  have hopn : (wRollback s c1).2.opn = upd s.opn t1 false := by
+    rw [wRollback_live h0 hl, ho.u]; rfl
+  refine ⟨hr.1.change ?_, hr.2⟩
+  intro t _ hex hopen
+  rw [hopn] at hopen
+  have hge : t1 ≤ t := by simpa [exFrom] using hex
+  by_cases ht : t = t1
+  · subst ht; rw [upd_same] at hopen; cases hopen
+  · rw [upd_other _ _ _ _ ht, (h.above t (by omega)).1] at hopen; cases hopen
+
+/-- Leaving a clean bulk by `Commit`. -/
+theorem binv_commit {s : St} {t1 : Nat} {c1 : W} (h : BInv True s t1) (ho : Owner c1 t1) :
+    Inv (wCommit s c1).2 ∧ Ext s (wCommit s c1).2 := by
+  have hg := ho.good h.lo h.hi
+  have hi : Inv s := by
+    refine (h.c trivial).change ?_
+    intro t _ hex hopen
+    have hgt : t1 < t := by simpa [exAbove] using hex
+    rw [(h.above t hgt).1] at hopen; cases hopen
+  exact wCommit_pres hi hg (Or.inr ho.lc) rfl
 
 theorem bulkOp_pres {s : St} (h : Inv s) (atomic cof : Bool) (els : List BEl)
-    (hpre : atomic = true ∨ s.inUse = true ∨ s.lockTx true = true) :
+    (hpre : s.inUse = true ∨ s.lockTx true = true) :
     Inv (bulkOp s atomic cof els).2.2 ∧ Ext s (bulkOp s atomic cof els).2.2 := by
   unfold bulkOp
   simp only []
   generalize hs1 : ({ s with script := els.foldl (fun f e => upd f e.w e.ok) s.script } : St) = s1
-  have hi1 : Inv s1 := by subst hs1; exact Inv.of_eq h rfl rfl rfl rfl rfl
+  have hi1 : Inv s1 := by subst hs1; exact InvE.of_eq h rfl rfl rfl rfl rfl
   have hx1 : Ext s s1 := by subst hs1; exact ⟨Nat.le_refl _, rfl, rfl, id⟩
+  have hpre1 : s1.inUse = true ∨ s1.lockTx true = true := by
+    rcases hpre with hp | hp
+    · exact Or.inl (hx1.inUse hp)
+    · exact Or.inr (by rw [hx1.lockTx]; exact hp)
   suffices hsuff : Inv (Bulk.runBulk bulkCtrl { atomic := atomic, cof := cof }
       (fun p => Bulk.runSeq Bulk.elementTag bulkApply cof els 0 false p) (s1, none)).2.2.1 ∧
       Ext s1 (Bulk.runBulk bulkCtrl { atomic := atomic, cof := cof }
@@ -256,15 +473,8 @@ theorem bulkOp_pres {s : St} (h : Inv s) (atomic cof : Bool) (els : List BEl)
   cases atomic with
   | false =>
     rw [runBulk_state_nonatomic]
-    have hfac : (none : Option W) = none → s1.inUse = true ∨ s1.lockTx true = true := by
-      intro _
-      rcases hpre with hp | hp | hp
-      · cases hp
-      · exact Or.inl (hx1.inUse hp)
-      · exact Or.inr (by rw [hx1.lockTx]; exact hp)
-    have := runSeq_inv Bulk.elementTag bulkApply (BulkP s1 none)
-      (bulkApply_pres (fun c hc => by cases hc) hfac) cof els 0 false (s1, none)
-      ⟨rfl, hi1, Ext.refl _⟩
+    have := runSeq_inv Bulk.elementTag bulkApply (PlainP s1) (bulkApply_plain hpre1) cof els 0 false
+      (s1, none) ⟨rfl, hi1, Ext.refl _⟩
     exact ⟨this.2.1, this.2.2⟩
   | true =>
     have hb := wBegin_pres hi1 (good_root s1.nT) rfl
@@ -282,23 +492,35 @@ theorem bulkOp_pres {s : St} (h : Inv s) (atomic cof : Bool) (els : List BEl)
       split at hbo
       · rename_i c s2 heq
         rw [heq] at hb hst
-        simp only [] at hst
+        simp only [] at hst hb
         obtain ⟨hi2, hx2, hg⟩ := hb
-        obtain ⟨hgc, hlc, _⟩ := hg c rfl
-        have hrun := runSeq_inv Bulk.elementTag bulkApply (BulkP s2 (some c))
-          (bulkApply_pres (fun c' hc' => by cases hc'; exact hgc) (fun hc' => by cases hc'))
-          cof els 0 false (s2, some c) ⟨rfl, hi2, Ext.refl _⟩
-        obtain ⟨hpc, hpi, hpx⟩ := hrun
-        generalize hp : (Bulk.runSeq Bulk.elementTag bulkApply cof els 0 false (s2, some c)).2.2 = p at *
-        obtain ⟨ps, pc⟩ := p
-        simp only [] at hpc hpi hpx
+        obtain ⟨hceq, hnT2, hopn2, hgc, hlc, _⟩ := hg c rfl
+        have ho : Owner c (s1.nT + 1) := by
+          subst hceq
+          exact ⟨rfl, rfl, rfl, rfl, rfl⟩
+        have hbinv : BInv (false = false) s2 (s1.nT + 1) := by
+          refine ⟨hi2.weaken (fun _ _ => rfl), fun _ => hi2.weaken (fun _ _ => rfl), hopn2, by omega,
+            by rw [hnT2], ?_⟩
+          intro t ht
+          exact hi2.fresh t (by rw [hnT2]; exact ht)
+        have hlk2 : s2.inUse = true ∨ s2.lockTx true = true := by
+          rcases hpre1 with hp | hp
+          · exact Or.inl (hx2.inUse hp)
+          · exact Or.inr (by rw [hx2.lockTx]; exact hp)
+        have hrun := runSeq_inv2 Bulk.elementTag bulkApply (AtomP s2 c (s1.nT + 1))
+          (fun e p he hp => bulkApply_atom ho e p he hp) cof els 0 false (s2, some (c, s2.inUse))
+          ⟨s2.inUse, rfl, hlk2, hbinv, Ext.refl _⟩
+        generalize hfin : Bulk.runSeq Bulk.elementTag bulkApply cof els 0 false (s2, some (c, s2.inUse)) = fin at *
+        obtain ⟨rs, hE, ps, pc⟩ := fin
+        obtain ⟨iu, hpc, _, hpb, hpx⟩ := hrun
+        simp only [] at hpc hpb hpx hst
         subst hpc
-        rcases hst with hst | hst
+        rcases hst with ⟨hhe, hst⟩ | ⟨hhe, hst⟩
         · rw [hst, bulkCtrl_rollback_some]
-          have := wRollback_pres hpi (hgc.mono hpx.nT)
+          have := binv_rollback hpb ho
           exact ⟨this.1, (hx2.trans hpx).trans this.2⟩
         · rw [hst, bulkCtrl_commit_some]
-          have := wCommit_pres hpi (hgc.mono hpx.nT) (Or.inr hlc)
+          have := binv_commit (hpb.weaken (fun _ => hhe)) ho
           exact ⟨this.1, (hx2.trans hpx).trans this.2⟩
       · cases hbo
 
@@ -325,13 +547,13 @@ theorem callOn_pres {lockInTx : Bool} {s : St} {w : W} (h : Inv s) (hg : HG s) (
     Inv (callOn s w c).2 ∧ HG (callOn s w c).2 ∧ (callOn s w c).2.lockTx = s.lockTx := by
   cases c with
   | write hh k dry ok wid =>
-    have hi : Inv { s with script := upd s.script wid ok } := Inv.of_eq h rfl rfl rfl rfl rfl
+    have hi : Inv { s with script := upd s.script wid ok } := InvE.of_eq h rfl rfl rfl rfl rfl
     have := wWrite_pres (c := w) hi hw k dry wid
     refine ⟨this.1, ?_, this.2.lockTx⟩
     exact HG.of_ext (s := { s with script := upd s.script wid ok }) hg this.2
   | begin hh ok =>
     have hu : w.u = .none := by simpa [callOk] using hok
-    have hi : Inv { s with faults := { begin := !ok } } := Inv.of_eq h rfl rfl rfl rfl rfl
+    have hi : Inv { s with faults := { begin := !ok } } := InvE.of_eq h rfl rfl rfl rfl rfl
     have hb := wBegin_pres (c := w) hi hw hu
     have hcall : callOn s w (.begin hh ok) = (match wBegin { s with faults := { begin := !ok } } w with
         | (.ok n, s) => (Ret.ok, { s with handles := s.handles ++ [n] })
@@ -341,13 +563,13 @@ theorem callOn_pres {lockInTx : Bool} {s : St} {w : W} (h : Inv s) (hg : HG s) (
     · rename_i n s1 heq
       rw [heq] at hb
       obtain ⟨hi1, hx1, hgn⟩ := hb
-      refine ⟨Inv.of_eq hi1 rfl rfl rfl rfl rfl, ?_, hx1.lockTx⟩
+      refine ⟨InvE.of_eq hi1 rfl rfl rfl rfl rfl, ?_, hx1.lockTx⟩
       intro c hc
       have hc' : c ∈ s1.handles ++ [n] := hc
       simp only [List.mem_append, List.mem_singleton] at hc'
       rcases hc' with hc' | hc'
       · exact HG.of_ext (s := { s with faults := { begin := !ok } }) hg hx1 c hc'
-      · subst hc'; exact (hgn _ rfl).1
+      · subst hc'; exact (hgn _ rfl).2.2.2.1
     · rename_i e s1 heq
       rw [heq] at hb
       exact ⟨hb.1, HG.of_ext (s := { s with faults := { begin := !ok } }) hg hb.2.1, hb.2.1.lockTx⟩
@@ -357,7 +579,7 @@ theorem callOn_pres {lockInTx : Bool} {s : St} {w : W} (h : Inv s) (hg : HG s) (
       rcases hok with hu | hl
       · exact Or.inl hu
       · exact Or.inr (hL hl)
-    have hi : Inv { s with faults := { lock := !ok } } := Inv.of_eq h rfl rfl rfl rfl rfl
+    have hi : Inv { s with faults := { lock := !ok } } := InvE.of_eq h rfl rfl rfl rfl rfl
     have hb := wLock_pres (c := w) hi hw hpre
     have hcall : callOn s w (.lock hh ok) = (match wLock { s with faults := { lock := !ok } } w with
         | (.ok n, s) => (Ret.ok, { s with handles := s.handles ++ [n] })
@@ -367,7 +589,7 @@ theorem callOn_pres {lockInTx : Bool} {s : St} {w : W} (h : Inv s) (hg : HG s) (
     · rename_i n s1 heq
       rw [heq] at hb
       obtain ⟨hi1, hx1, hgn⟩ := hb
-      refine ⟨Inv.of_eq hi1 rfl rfl rfl rfl rfl, ?_, hx1.lockTx⟩
+      refine ⟨InvE.of_eq hi1 rfl rfl rfl rfl rfl, ?_, hx1.lockTx⟩
       intro c hc
       have hc' : c ∈ s1.handles ++ [n] := hc
       simp only [List.mem_append, List.mem_singleton] at hc'
@@ -381,11 +603,11 @@ theorem callOn_pres {lockInTx : Bool} {s : St} {w : W} (h : Inv s) (hg : HG s) (
     have hpre : w.u = .none ∨ w.lockCreated = false := by
       simp only [callOk, Bool.or_eq_true, beq_iff_eq, Bool.not_eq_true'] at hok
       exact hok
-    have hi : Inv { s with faults := { commit := !ok } } := Inv.of_eq h rfl rfl rfl rfl rfl
-    have := wCommit_pres (c := w) hi hw hpre
+    have hi : Inv { s with faults := { commit := !ok } } := InvE.of_eq h rfl rfl rfl rfl rfl
+    have := wCommit_pres (c := w) hi hw hpre rfl
     exact ⟨this.1, HG.of_ext (s := { s with faults := { commit := !ok } }) hg this.2, this.2.lockTx⟩
   | rollback hh ok =>
-    have hi : Inv { s with faults := { rollback := !ok } } := Inv.of_eq h rfl rfl rfl rfl rfl
+    have hi : Inv { s with faults := { rollback := !ok } } := InvE.of_eq h rfl rfl rfl rfl rfl
     have := wRollback_pres (c := w) hi hw
     exact ⟨this.1, HG.of_ext (s := { s with faults := { rollback := !ok } }) hg this.2, this.2.lockTx⟩
 
@@ -403,27 +625,23 @@ theorem stepOp_pres {lockInTx : Bool} {s : St} (h : Inv s) (hg : HG s)
       have hw : Good s.nT w := hg w (List.mem_of_getElem? hh)
       have := callOn_pres h hg hw hL c hok
       simp only []
-      exact ⟨Inv.of_eq this.1 rfl rfl rfl rfl rfl, HG.of_eq this.2.1 rfl rfl, this.2.2⟩
+      exact ⟨InvE.of_eq this.1 rfl rfl rfl rfl rfl, HG.of_eq this.2.1 rfl rfl, this.2.2⟩
   | swrite k dry ok w f =>
     simp only [opOk, Bool.or_eq_true] at hok
-    have hi : Inv { s with script := upd s.script w ok, faults := f } := Inv.of_eq h rfl rfl rfl rfl rfl
+    have hi : Inv { s with script := upd s.script w ok, faults := f } := InvE.of_eq h rfl rfl rfl rfl rfl
     have hpre : s.inUse = true ∨ s.lockTx true = true := hok.imp id hL
     have := facadeWrite_pres (s := { s with script := upd s.script w ok, faults := f }) hi hpre k dry w
     simp only [stepOp]
-    exact ⟨Inv.of_eq this.1 rfl rfl rfl rfl rfl,
+    exact ⟨InvE.of_eq this.1 rfl rfl rfl rfl rfl,
       HG.of_eq (HG.of_ext (s := { s with script := upd s.script w ok, faults := f }) hg this.2) rfl rfl,
       this.2.lockTx⟩
   | bulk atomic cof els f =>
     simp only [opOk, Bool.or_eq_true] at hok
-    have hi : Inv { s with faults := f } := Inv.of_eq h rfl rfl rfl rfl rfl
-    have hpre : atomic = true ∨ s.inUse = true ∨ s.lockTx true = true := by
-      rcases hok with (ha | hu) | hl
-      · exact Or.inl ha
-      · exact Or.inr (Or.inl hu)
-      · exact Or.inr (Or.inr (hL hl))
+    have hi : Inv { s with faults := f } := InvE.of_eq h rfl rfl rfl rfl rfl
+    have hpre : s.inUse = true ∨ s.lockTx true = true := hok.imp id hL
     have := bulkOp_pres (s := { s with faults := f }) hi atomic cof els hpre
     simp only [stepOp]
-    exact ⟨Inv.of_eq this.1 rfl rfl rfl rfl rfl,
+    exact ⟨InvE.of_eq this.1 rfl rfl rfl rfl rfl,
       HG.of_eq (HG.of_ext (s := { s with faults := f }) hg this.2) rfl rfl, this.2.lockTx⟩
 
 theorem runOps_pres {lockInTx : Bool} (ops : List Op) (s : St) (h : Inv s) (hg : HG s)
@@ -439,13 +657,13 @@ theorem runOps_pres {lockInTx : Bool} (ops : List Op) (s : St) (h : Inv s) (hg :
 
 theorem inv_init (lockTx : Bool → Bool) (hl : lockTx false = false) (inUse : Bool) :
     Inv { lockTx := lockTx, inUse := inUse } ∧ HG { lockTx := lockTx, inUse := inUse } := by
-  refine ⟨⟨rfl, rfl, fun _ => rfl, ?_, fun t _ => ⟨rfl, rfl⟩, hl⟩, ?_⟩
+  refine ⟨⟨rfl, rfl, fun _ _ _ => rfl, ?_, fun t _ => ⟨rfl, rfl⟩, hl⟩, ?_⟩
   · intro t ho
     exact absurd ho (by simp)
-  intro c hc
-  simp only [List.mem_singleton] at hc
-  subst hc
-  exact good_root _
+  · intro c hc
+    simp only [List.mem_singleton] at hc
+    subst hc
+    exact good_root _
 
 /-- From the invariant to C31's predicate. -/
 theorem c31Ok_of_inv {s : St} (h : Inv s) : c31Ok s.trace = true := by
